@@ -168,7 +168,7 @@ class TariffOracle:
         if len(m) != 1:
             raise LookupError(len(m))
         s = m[0]
-        h = Fraction(dt.hour) + Fraction(dt.minute, 60) + Fraction(dt.second, 3600)
+        h = Fraction(dt.hour) + Fraction(dt.minute, 60) + Fraction(dt.second, 3600) + Fraction(dt.microsecond, 3600 * 10 ** 6)
         rate = None
         for t, r in s["bps"]:
             if t <= h:
